@@ -69,7 +69,9 @@ def make_case_call(rng):
             'r_out_attrs': gen.random_out_attrs(rng, R, rkey, 'rattr'),
             'out_sim_score': rng.random() < 0.8, 'n_jobs': rng.choice([1, 1, 2, 3, 50, -1])}
     if rng.random() < 0.3:
-        call['l_out_prefix'], call['r_out_prefix'] = rng.choice([('left_', 'right_'), ('a.', 'b.')])
+        call['l_out_prefix'], call['r_out_prefix'] = rng.choice([('left_', 'right_'), ('a.', 'b.'), ('', 'r.')])
+    if rng.random() < 0.1:
+        call['show_progress'] = True
     return call
 
 
